@@ -37,7 +37,15 @@ def check(run, record_expected=False):
     ded = deductive.run_deductive(run, KEYS)
     if record_expected:
         return ded
+    from vf.bounded import wrap_worker
+
     dom = ir_domain.domain(run.tier, run.seed)
+    # descriptions whose summary / prose / type strings wrap (several lines, two-line summaries): layout must stabilise too
+    for label, ir in wrap_worker.domain(100):
+        if ".long" in label:
+            continue
+        ir = dict(ir, doc=ir["doc"] + "\nSecond summary line.")
+        dom.append(("L" + label, ir))
     irs = dict(dom)
     ko = [(k, rt_props.variants(k, run.tier)) for k in R.KINDS]
     jobs = [(k, oi, o, label, ir) for k, ol in ko for oi, o in enumerate(ol) for label, ir in dom]
